@@ -53,6 +53,10 @@ CLAIMED["C10"] = dict(engine="E2", technique="contracts on the unmodified CubicR
     text="Proof over the reals of the exact cases the statement singles out, for every cubic with non-negligible leading coefficient: p=0 (one real root -cbrt(q), announced and among the returned values; triple root when q=0), q=0 (one root for p>0, three for p<0, all genuine), vanishing discriminant (simple and double root genuine), and the one-real-root Cardano branch (x1 is a root) for every (a1,a0) at three fixed (a3,a2) pairs; the count is always 1 or 3. "
          "The three-distinct-real-roots trigonometric branch, the residual-vs-multiplicity accuracy statement and the Newton refinement `improve` are not covered.",
     note=TB_E2 + " cos/sin/atan2 are uninterpreted (trigonometric branch out of reach); tolerance thresholds are exact only at zero over the reals, so inputs are kept away from them by the preconditions; Cardano's branch is symbolic in (a1,a0) only.")
+CLAIMED["C46"] = dict(engine="E1", technique="data-structure invariant over ghost state (value of the named semaphore + units held by this and by the other processes) as pre/postcondition of every operation of MFrontLock/MFrontLockGuard, process exit included; CBMC function contracts on extracted C text with POSIX semaphore calls as assumed-contract stubs; loop-free",
+    text="Invariant proof over all histories and interleavings (given atomic semaphore operations): the constructor, lock, unlock, the destructor run at normal process exit and the guard's constructor/destructor each preserve 'value + units held == 1' from every admissible state, "
+         "so at most one process is inside a guarded section and the semaphore never carries more units than it was created with; lock returns as the only holder; a normally exiting process leaves the value as found. Violations are replayed natively on the real MFrontLock.cxx (semaphore value before/after child processes).",
+    note=TB_E1 + " Kernel atomicity and the POSIX semantics of sem_open/sem_wait/sem_post/sem_close are assumed contracts; abnormal termination inside a critical section, the Windows mutex branch and leftovers of earlier defective runs are not covered; 'the lock is used only through the guard' is a supporting static fact (grep).")
 
 NOT_APPLICABLE = {
     "C03": "floating-point tolerance statement about iterative eigen-solvers (Jacobi/QL/Cardano with cos/acos); no contract within reach of CBMC-C or the real-arithmetic VC generator expresses it",
